@@ -113,3 +113,66 @@ def windows_across(constants, width):
                 if w not in constants and w not in out:
                     out.append(w)
     return out
+
+
+def bech32_self_referential(hrp: str, version: int, nbytes: int, const: int, fill: bytes):
+    """valid segwit addresses (as bytes) whose six checksum characters ALSO occur earlier in the data part: the checksum is
+    affine over GF(2) in the program bits, so for a 6-symbol window of the program 'checksum(window := x) == x' is a 30x30
+    linear system.  Yields (window position, address) for every window position where it is solvable.  A decoder that finds
+    the checksum by content (partition / split / find / replace) instead of by position mis-cuts exactly these."""
+    from vf.ref import bech32_ref as B
+    base5 = B.convertbits(list(fill[:nbytes]), 8, 5)
+    nfull = (nbytes * 8) // 5               # symbols made of program bits only
+    for w in range(0, nfull - 6 + 1):
+        def chk(x):
+            d = list(base5)
+            for s in range(6):
+                d[w + s] = (x >> (5 * (5 - s))) & 31
+            c = B.create_checksum(hrp, [version] + d, const)
+            v = 0
+            for sym in c:
+                v = (v << 5) | sym
+            return v, d
+        c0, _ = chk(0)
+        cols = [chk(1 << j)[0] ^ c0 for j in range(30)]          # column j of M
+        # solve (M xor I) x = c0 over GF(2): rows as 31-bit ints (30 coefficients + rhs)
+        rows = []
+        for i in range(30):
+            r = 0
+            for j in range(30):
+                bit = ((cols[j] >> i) & 1) ^ (1 if i == j else 0)
+                r |= bit << j
+            r |= ((c0 >> i) & 1) << 30
+            rows.append(r)
+        piv = {}
+        ok = True
+        rr = 0
+        for col in range(30):
+            p = next((k for k in range(rr, 30) if (rows[k] >> col) & 1), None)
+            if p is None:
+                continue
+            rows[rr], rows[p] = rows[p], rows[rr]
+            for k in range(30):
+                if k != rr and (rows[k] >> col) & 1:
+                    rows[k] ^= rows[rr]
+            piv[col] = rr
+            rr += 1
+        for k in range(rr, 30):
+            if rows[k] >> 30:
+                ok = False
+        if not ok:
+            continue
+        x = 0
+        for col, k in piv.items():
+            if rows[k] >> 30:
+                x |= 1 << col
+        cv, d = chk(x)
+        if cv != x:
+            continue
+        prog = bytes(B.convertbits(d, 5, 8, pad=False) or [])
+        if len(prog) != nbytes:
+            continue
+        addr = B.encode_segwit(hrp, version, prog, const=const)
+        body = addr[len(hrp) + 1:]
+        if body[:-6].find(body[-6:]) >= 0 and B.is_valid_segwit(addr) == (const == (1 if version == 0 else B.BECH32M_CONST if hasattr(B, "BECH32M_CONST") else const)):
+            yield w, addr
